@@ -79,6 +79,38 @@ class KillGen(c03.Gen):
             self.ops.append(("R remaining", ["R remaining"]))
 
 
+class StepGen(c03.Gen):
+    """one producer thread (the driver's main thread), a random schedule, then one record_trace_data() call
+    executed instruction by instruction under ptrace: after every instruction the driver computes what the
+    thread's file would hold if the process were killed right there and the recorder shut down"""
+
+    def drain(self):
+        if 1 not in self.prepared:
+            self.prepared.add(1)
+            self.ops.append(("P 1 prepare", ["P 1 prepare"]))
+        self.rtd(1)
+        h, ms = self.ops.pop()
+        self.ops.append(("STEP" + h[1:], [ms[0].replace(" batch ", " steps ", 1)]))
+
+
+def views_of(line):
+    m = re.search(r"views=(\S*)", line)
+    return m.group(1).split("|") if m else []
+
+
+def view_problem(views):
+    """C04 on the implementation's own kill views: each is whole records only and extends the previous one"""
+    prev = []
+    for v in views:
+        items = [x for x in v.strip("[]").split(",") if x]
+        if any(x.startswith("~") or x.startswith("TRAIL") for x in items):
+            return "killed at this instruction the file would end with a torn record: %s" % v
+        if items[:len(prev)] != prev:
+            return "kill views do not grow by appending: %s after %s" % (v, prev)
+        prev = items
+    return None
+
+
 def run_segv(ctx, exe, idx, ncyg, sig, maxstack):
     """SIGABRT/SIGSEGV raised in-process after `ncyg` -finstrument-functions entries.  Plays the recorder's
     shutdown on what the dead process left (FIFO + /dev/shm) and decodes the flushed records."""
@@ -120,7 +152,7 @@ def run_segv(ctx, exe, idx, ncyg, sig, maxstack):
 
 def model_segv(fixed, maxstack, idx, written):
     line = "SEGV %d %d %d %s" % (1 if fixed else 0, maxstack, idx, " ".join("1" if w else "0" for w in written))
-    return C.norm(C.run_model("C04", [line])[0])
+    return C.norm(c03.run_model("C04", [line])[0])
 
 
 # --------------------------------------------------------------------------------------------------
@@ -205,6 +237,7 @@ def run(ctx):
         C.violation(ctx, "proof", {"kind": "proof-obligation-broken", "problems": problems}, True)
         return C.finish(ctx)
     ctx.snapshot()
+    make_job = c03.start_make(ctx)
     known = {f["id"]: f for f in C.known_findings("C04")}
 
     # ---- (a) H1: stop + shutdown schedules ---------------------------------------------------------
@@ -220,6 +253,7 @@ def run(ctx):
                              rng.randint(8, 70), rng.choice([0, 0, 0.15]), rng.choice([[0], [0, 0, 8, 16], [0, 24]]),
                              rng.choice(["kill", "kill", "mixed", "ftrig"])))
     res = c03.run_h1_cases(ctx, exe, cases, model_name="C04")
+    ctx.notes.append("t(h1 schedules)=%.1fs" % ctx.elapsed())
     nsteps = sum(len(d["impl"]) for d in res)
     disagree = monfail = reported = 0
     distinct = set()
@@ -266,6 +300,64 @@ def run(ctx):
                 "theorem": "c04_crash_prefix / c04_recorder_loop_exits" if mon else
                            "correspondence Shmem.step (kill, rFlush, rRemaining) vs libmcount + stand-in recorder",
             }, no_failing_input=not mon)
+
+    # ---- kill at every instruction of one record_trace_data() call (ptrace single-step) ----------------
+    nstep = 14 if ctx.tier == "quick" else 200
+    scases = []
+    for i in range(nstep):
+        rng = ctx.rng
+        pl = [[0], [0, 8, 16], [0, 24], [8, 16, 32]][i % 4]
+        scases.append(StepGen(rng, 1, rng.randint(1, 2), rng.choice([48, 64, 96, 160]), rng.randint(3, 30),
+                              rng.choice([0, 0, 0.2]), pl))
+    sres = c03.run_h1_cases(ctx, exe, scases, model_name="C04", extra_env={"H1C03_INLINE": "1"})
+    ctx.notes.append("t(+single-step)=%.1fs" % ctx.elapsed())
+    steps = {"cases": len(sres), "instructions": 0, "views": 0, "agree_fixed": 0, "agree_prefix_F12": 0, "other": 0}
+    f12_hits = []
+    for ci, d in enumerate(sres):
+        g = d["gen"]
+        last = d["impl"][-1] if d["impl"] else ""
+        m = re.search(r"instructions=(\d+)", last)
+        steps["instructions"] += int(m.group(1)) if m else 0
+        iv = views_of(last)
+        steps["views"] += len(iv)
+        fd = d["first_diff"]
+        if not fd:
+            steps["agree_fixed"] += 1
+            bad = view_problem(iv)
+            if bad:
+                C.violation(ctx, "step%d" % ci, {"kind": "property-violated-on-implementation", "what": bad,
+                                                 "harness_script": [o[0] for o in g.ops], "views": iv,
+                                                 "theorem": "c04_crash_whole_records"})
+            continue
+        # does the implementation match the model of the code before the repair (two size updates)?
+        pre = [ml if not ml.startswith("RESET") else " ".join(ml.split()[:3] + ["0"]) for o in g.ops for ml in o[1]]
+        mpre = c03.run_model("C04", pre)
+        only_last = fd[0] == len(g.ops) - 1 and len(d["impl"]) == len(g.ops)
+        if only_last and c03.norm_state(mpre[-1]) == c03.norm_state(last):
+            steps["agree_prefix_F12"] += 1
+            f12_hits.append({"harness_script": [o[0] for o in g.ops], "views_impl": iv,
+                             "views_model_fixed": views_of(d["model"][-1]), "what": view_problem(iv)})
+        else:
+            steps["other"] += 1
+            C.violation(ctx, "step%d" % ci, {
+                "kind": "model-code-disagreement", "first_difference_at_op": fd[0], "impl_state": fd[1],
+                "model_state": fd[2], "model_prefix_state": c03.norm_state(mpre[fd[0]]) if fd[0] < len(mpre) else None,
+                "harness_script": [o[0] for o in g.ops][:fd[0] + 1],
+                "theorem": "correspondence of the producer micro-steps (Shmem.pWrite/pBump/pEnd/pPick/pStart/pMark)"},
+                True)
+    if f12_hits:
+        what = ("F12: record_ret_stack advances `size` past the header of a record with argument payload before "
+                "the payload is stored; killed between the two stores the thread leaves a header without payload "
+                "and flush_shmem_list copies it into <tid>.dat (%d of %d single-stepped calls; %s); implementation "
+                "matches the pre-fix model (c04_prefix_torn_record_witness)" % (
+                    len(f12_hits), len(sres), f12_hits[0]["what"]))
+        if "F12" in known:
+            C.known(ctx, known["F12"], what)
+        else:
+            C.violation(ctx, "F12-torn-payload-record", {
+                "kind": "property-violated-on-implementation", "finding": "F12", "what": what,
+                "runs": f12_hits[:3], "env": "H1C03_INLINE=1 UFTRACE_BUFFER=<maxsize+16>",
+                "theorem": "c04_crash_whole_records (fixed) / c04_prefix_torn_record_witness (as is)"})
 
     # ---- the crash handler: SIGABRT at a call depth below / at / beyond --max-stack --------------------
     segv = {"runs": 0, "agree_fixed": 0, "agree_prefix_F11": 0, "other": 0}
@@ -321,7 +413,9 @@ def run(ctx):
                 "theorem": "c04_segv_includes_open_calls (fixed) / c04_prefix_segv_wild_witness (as is)"})
 
     # ---- (b) e2e ------------------------------------------------------------------------------------
-    okm, mlog = ctx.make()
+    ctx.notes.append("t(+crash handler)=%.1fs" % ctx.elapsed())
+    okm, mlog = make_job.result()
+    ctx.notes.append("t(+make)=%.1fs" % ctx.elapsed())
     e2e = {"runs": 0, "records": 0, "failures": 0, "by_mode": {}}
     if not okm:
         C.violation(ctx, "make", {"kind": "snapshot-build-failed", "log": mlog[-3000:]}, True)
@@ -397,17 +491,19 @@ def run(ctx):
                         "theorem": "c04_crash_prefix, c04_crash_whole_records, c04_flush_covers_unended"})
 
     ctx.coverage.update({
-        "evaluations": nsteps + segv["runs"] + e2e["runs"],
+        "evaluations": nsteps + segv["runs"] + e2e["runs"] + steps["instructions"],
         "distinct_nontrivial": len(distinct) + e2e["runs"],
         "rule": "H1: %d random schedules ending with every thread stopped (kill / mtd_dtor / finish trigger) "
-                "followed by the recorder's shutdown sequence, every step compared with the model; crash handler: "
+                "followed by the recorder's shutdown sequence, every step compared with the model; %d record_trace_data() "
+                "calls single-stepped under ptrace, the would-be file after a kill computed after every instruction "
+                "and the sequence of distinct results compared with the model's micro-steps; crash handler: "
                 "SIGABRT and SIGSEGV raised in-process at call depths %s with --max-stack %d; e2e: every "
                 "termination mode x k-th event (k = 1..6 and random up to 400) x terminating thread, "
                 "2-3 threads, -pg / -finstrument-functions / -mfentry, under the real recorder" % (
-                    len(res), depths, maxstack),
+                    len(res), len(sres), depths, maxstack),
         "h1_schedules": len(res), "h1_steps_compared": nsteps, "h1_stop_kinds": hows, "h1_flushes_of_unended_buffers": flushes,
         "model_code_disagreements": disagree, "monitor_failures_on_impl": monfail,
-        "crash_handler": segv, "e2e": e2e, "exhaustive": False,
+        "crash_handler": segv, "kill_at_every_instruction": steps, "e2e": e2e, "exhaustive": False,
         "samples": [{"config": {"threads": d["gen"].nt, "stop": d["gen"].how}, "last_impl": c03.norm_state(d["impl"][-1])[:300]}
                     for d in res[:2] if d["impl"]],
     })
@@ -415,9 +511,9 @@ def run(ctx):
         "the recorder's shutdown starts after every thread has stopped (POLLHUP on the FIFO: all writers gone); "
         "after the finish trigger closes the pipe no thread stores further records (real threads may finish the "
         "hook they are in: exercised only by the e2e runs)",
-        "H1 stops a thread between two record_trace_data() calls; stops between the individual stores are covered "
-        "by the model (kill after every micro-step) and by the e2e runs, whose kill points are arbitrary for the "
-        "other threads",
+        "H1 schedules stop a thread between two record_trace_data() calls; stops between the individual stores "
+        "are covered by the model (kill after every micro-step), by the ptrace single-step runs (one thread, the "
+        "kill view after every instruction of one call) and by the e2e runs",
         "x86-64 TSO store order (bytes before size); SIGCHLD / /proc/<tid>/stat / FIFO HUP semantics are the "
         "environment of c04_recorder_loop_exits",
     ]
